@@ -418,14 +418,14 @@ fn run_variant<T: CellT>(case: &Value, variant: usize, log: &mut Vec<Value>) -> 
 
     const EXTRA: usize = 2;
     let items: Vec<T> = make_items(&ids);
-    enum RootObj<T> {
+    enum RootObj<T: 'static> {
         Owned(TooDee<T>),
         Plain(Plain<T>),
         Slice(Vec<T>),
     }
     let mut rootobj = match rkind {
         "owned" => RootObj::Owned(TooDee::from_vec(nc, nr, items)),
-        "plain" => RootObj::Plain(Plain(TooDee::from_vec(nc, nr, items))),
+        "plain" => RootObj::Plain(Plain::owned(TooDee::from_vec(nc, nr, items))),
         _ => {
             let mut v = items;
             for i in 0..EXTRA {
@@ -460,7 +460,7 @@ fn run_variant<T: CellT>(case: &Value, variant: usize, log: &mut Vec<Value>) -> 
     let n = calls.len();
     let root_now: Vec<u32> = match &rootobj {
         RootObj::Owned(a) => origins_of(a.data()),
-        RootObj::Plain(a) => origins_of(a.0.data()),
+        RootObj::Plain(a) => a.exposed_cells().iter().map(|e| e.origin()).collect(),
         RootObj::Slice(v) => {
             let o = origins_of(v);
             if T::HAS_VALUE && (0..EXTRA).any(|i| o[nc * nr + i] != T::make(888_000 + i as u32).origin()) {
